@@ -4,6 +4,8 @@ The shim's sleep monitor (any poll/ppoll/select/epoll_wait with timeout != 0, an
 connect/accept/send/recv on a descriptor without O_NONBLOCK, issued while an API call on a socket in
 non-blocking mode is in progress) watches (a) the complete product transport x connection phase x
 operation of h_nb and (b) every execution of the h_msg explorations."""
+import os
+
 from checks import msgfamily
 
 LEVEL = "model_checking"
@@ -52,6 +54,33 @@ def run(chk, tier, jobs, deadline):
     merged["per_configuration"] = cov1.get("per_configuration", []) + cov2.get("per_configuration", [])
     merged["samples"] = (cov1.get("samples", [])[:6] + cov2.get("samples", [])[:6])
     merged["exhaustive"] = bool(cov1.get("exhaustive")) and bool(cov2.get("exhaustive"))
+    # (c) the control interface is serviced from inside the application's own (non-blocking) calls: the same monitor
+    # over control sessions (requests whose replies are read late or never, concurrent sessions), h_ctl with mon=1
+    import shutil
+    import harnesses
+    import build
+    from checks import C14 as c14
+    run_root = os.path.join(build.BUILD, "run", "c05ctl-%d" % os.getpid())
+    os.makedirs(run_root, exist_ok=True)
+    try:
+        exe = harnesses.build_explorer_harness("h_ctl", variant="plain", **c14.BUILD_KW)
+        env = dict(os.environ, C14_RUN=run_root)
+        ctl_cfgs = [("tp=tcp,target=a,c0=r:ga,rel=0,mon=1", 1), ("tp=tcp,target=srv,c0=x:ag,c1=r:t,rel=0,mon=1", 1),
+                    ("tp=ux,target=b,big=1,c0=r:g,c1=r:k,c2=r:x,rel=99,mon=1", 1), ("tp=tcp,target=a,c0=r:g,c1=r:m,c2=x:g,rel=3,mon=1", 0)]
+        for params, bound in ctl_cfgs:
+            res = harnesses.explore(exe, params, bound if q else bound + 1, 120, jobs=jobs, env=env)
+            harnesses.merge_into(chk, res, PREFIXES, params)
+            for k in ("states", "transitions", "executions"):
+                merged[k] += res.get(k, 0)
+            merged["traces_validated_against_impl"] += res.get("executions", 0)
+            merged["evaluations"] += res.get("executions", 0)
+            merged["configurations"] += 1
+            merged["per_configuration"].append(dict(params=params, bound=bound, build="plain", harness="h_ctl",
+                                                    executions=res.get("executions"), completed_bound=res.get("completed_bound")))
+            if res.get("completed_bound", -1) < (bound if q else bound + 1):
+                merged["exhaustive"] = False
+    finally:
+        shutil.rmtree(run_root, ignore_errors=True)
     merged["cells_phase_x_transport"] = len(cells)
     merged["api_calls_monitored_h_nb"] = cov1.get("api_calls_monitored_h_nb", 0)
     chk.coverage = merged
